@@ -36,12 +36,21 @@ PROGRAMS = [
     ("wall", 'IMPORT MOD "ROBOT"\nr <- ROBOT_MAP("n")\nDISPLAY("go")\nMOVE_FORWARD(r)\nDISPLAY("never")\n'),
     ("input", 'x <- INPUT()\nDISPLAY("got " + x)\ny <- INPUT()\nDISPLAY("[" + y + "]")\n'),
     ("input", 'IMPORT MOD "IO"\nx <- INPUT_PROMPT("name? ")\nDISPLAY(x)\n'),
+] + [("ok", 'DISPLAY("%s°é中😀 tail")\n%sé中 <- 1\nDISPLAY(%sé中)\n' % ("a" * k, "v" * k, "v" * k)) for k in range(17, 27)]
+
+# a program that imports a user module: the module file lies in the directory the tool is started from (and next to main.ap)
+MODULE_PROGRAMS = [
+    ("ok", 'DISPLAY("start")\nIMPORT MOD "helper.ap"\nDISPLAY(twice(21))\n', {"helper.ap": "EXPORT PROCEDURE twice(n) {\nRETURN n * 2\n}\n"}),
+    ("runtime", 'DISPLAY("before")\nIMPORT MOD "broken.ap"\nDISPLAY("after")\n', {"broken.ap": "x <- * 2\n"}),
 ]
 
 
-def run_cli(binpath, src, mode, debug, check, stdin_bytes):
+def run_cli(binpath, src, mode, debug, check, stdin_bytes, mods=None, both=False):
     d = tempfile.mkdtemp(prefix="aplang-cli-")
     try:
+        for name, content in (mods or {}).items():
+            with open(os.path.join(d, name), "wb") as f:
+                f.write(content.encode("utf-8"))
         args = [binpath]
         inp = stdin_bytes
         if mode == "file":
@@ -55,6 +64,8 @@ def run_cli(binpath, src, mode, debug, check, stdin_bytes):
             inp = src.encode("utf-8")
         if check:
             args.append("--check")
+            if both and debug != "none":
+                args += ["--debug", debug]
         elif debug != "none":
             args += ["--debug", debug]
         try:
@@ -94,12 +105,13 @@ class PROP(PropCheck):
     def run_impl(self, cases):
         with ThreadPoolExecutor(max_workers=C.NCPU) as ex:
             res = list(ex.map(lambda c: run_cli(C.CLI_BIN, c.src, c.meta["mode"], c.meta["debug"], c.meta["check"],
-                                                c.meta["stdin"].encode("utf-8")), cases))
+                                                c.meta["stdin"].encode("utf-8"), c.mods, c.meta.get("both", False)), cases))
         # mode equivalence, checked on the implementation itself: same source + configuration, different way of supplying it
         groups = {}
         for c, r in zip(cases, res):
             if c.meta["cls"] != "input" and c.meta["stdin"] == "":
-                groups.setdefault((c.src, c.meta["debug"], c.meta["check"]), []).append((c, r))
+                groups.setdefault((c.src, c.meta["debug"], c.meta["check"], bool(c.meta.get("both")), tuple(sorted((c.mods or {}).items()))),
+                                  []).append((c, r))
         for g in groups.values():
             if len(set(r for _, r in g)) > 1:
                 for c, _ in g:
@@ -115,9 +127,20 @@ class PROP(PropCheck):
             for mode in MODES:
                 out.append(self.mk(cls, src, mode, "none", False, "ann\nbob\n" if cls == "input" else ""))
                 out.append(self.mk(cls, src, mode, "none", True, ""))
+            # --check together with every --debug mode: whatever the tool makes of the combination, nothing goes to standard output
+            for k, dbg in enumerate(DEBUGS[1:]):
+                c = self.mk(cls, src, MODES[(k + 1) % len(MODES)], dbg, True, "")
+                c.meta["both"] = True
+                out.append(c)
             # every debug mode on every program (the way the source is supplied rotates)
             for k, dbg in enumerate(DEBUGS[1:]):
                 out.append(self.mk(cls, src, MODES[k % len(MODES)], dbg, False, "ann\nbob\n" if cls == "input" else ""))
+        for cls, src, mods in MODULE_PROGRAMS:
+            for mode in MODES:
+                c = self.mk(cls, src, mode, "none", False, "")
+                c.mods = dict(mods)
+                c.meta["nomodel"] = True
+                out.append(c)
         return out
 
     def cases(self, rng, tier, scale=1):
@@ -153,6 +176,8 @@ class PROP(PropCheck):
                                              C.coq_text(case.src), C.coq_text(m["stdin"]))
 
     def expected(self, case, impl):
+        if case.meta.get("both") or case.meta.get("nomodel"):
+            return None      # clap's handling of the flag combination / host module files are outside the driver model
         return impl
 
     def oracle(self, case, impl):
@@ -166,6 +191,8 @@ class PROP(PropCheck):
         if case.meta["check"]:
             if out != "-":
                 return "--check printed to standard output"
+            if case.meta.get("both"):
+                return None
             if cls in ("ok", "runtime", "wall", "input") and status != 0:
                 return "--check failed on a syntactically valid program"
             if cls in ("lex", "parse") and status == 0:
